@@ -1,5 +1,5 @@
 // ---------- class V for the symbol walker: a recorder that also logs its answers ----------
-pub trait SymbolVisitor<'a, V> {
+trait SymbolVisitor<'a, V> {
     spec fn log(&self) -> Seq<Symbol<'a>>;
     spec fn answers(&self) -> Seq<ControlFlow<V>>;
     fn visit(&mut self, s: Symbol<'a>) -> (r: ControlFlow<V>)
